@@ -37,6 +37,64 @@ def extra_cfgs(rng: random.Random) -> List[Dict[str, Any]]:
     return out
 
 
+def validate_wrapper(rep: Report) -> None:
+    """Growth item: the _validate wrapper itself (spec/Validate.tla): every way of binding an unsupported argument
+    (by position or by keyword, default or not) on a synthetic signature emitted by TLC, plus the real ops with the
+    unsupported argument passed POSITIONALLY."""
+    import unit_scaling.functional as U
+    from unit_scaling.docs import _validate
+
+    res = common.run_tlc("Validate_MC", "Validate_MC.cfg", coverage=True, timeout=300, tag="valmc")
+    common.tlc_must_pass(res, "Validate_MC")
+    rep.add_tlc(res)
+    r = common.run_tlc("Validate_MC", "Validate_MC_leg.cfg", timeout=300, tag="valleg")
+    common.tlc_must_fail(r, "Validate Legacy=keywords_only", "RejectExactly")
+    rep.extra.setdefault("l2_refuted_deviations", []).append({"legacy": "keywords_only", "violated": r.violated_invariant})
+
+    def target(input, mult=1.0, flag=False, mode="a"):
+        return (input, mult, flag, mode)
+
+    defaults = {"input": 0, "mult": 1.0, "flag": False, "mode": "a"}
+    others = {"input": 7, "mult": 2.5, "flag": True, "mode": "b"}
+    names = ["input", "mult", "flag", "mode"]
+    calls = res.printed("VCALL")
+    if len(calls) < 100:
+        raise common.MachineryError(f"Validate_MC emitted only {len(calls)} calls")
+    for c in calls:
+        uns = list(c["unsupported"])
+        f = _validate(target, uns)
+        pos = [(defaults if v == "default" else others)[names[i]] for i, v in enumerate(c["pos"])]
+        kw = {k: (defaults if v == "default" else others)[k] for k, v in (c["kw"].items() if isinstance(c["kw"], dict) else [])}
+        try:
+            f(*pos, **kw)
+            raised = False
+        except ValueError:
+            raised = True
+        rep.case(("vcall", json.dumps(c, sort_keys=True)), nontrivial=bool(uns))
+        if raised != c["reject"]:
+            rep.violation(f"_validate(unsupported={uns}) called with positional {c['pos']} keywords {c['kw']}: raised={raised}, spec MustReject={c['reject']}",
+                          {"vcall": c}, key=f"validate_wrapper:{'missed' if c['reject'] else 'spurious'}")
+    x = torch.randn(3, 4)
+    positional = [
+        ("silu inplace positional", lambda: U.silu(x, 1.0, "to_output_scale", True)),
+        ("dropout inplace positional", lambda: U.dropout(x, 0.25, True, True)),
+        ("add alpha positional", lambda: U.add(x, x, None, 2)),
+        ("embedding scale_grad_by_freq positional", lambda: U.embedding(torch.tensor([0, 1]), torch.randn(3, 2), None, None, 2.0, True)),
+        ("embedding sparse positional", lambda: U.embedding(torch.tensor([0, 1]), torch.randn(3, 2), None, None, 2.0, False, True)),
+        ("cross_entropy weight positional", lambda: U.cross_entropy(torch.randn(2, 3), torch.tensor([0, 1]), torch.ones(3))),
+        ("mse_loss size_average positional", lambda: U.mse_loss(x, x, True)),
+    ]
+    for label, fn in positional:
+        rep.case(("positional", label))
+        try:
+            fn()
+            rep.violation(f"unsupported argument passed positionally was accepted: {label}", {"positional": label}, key="unsupported_positional_accepted")
+        except ValueError:
+            pass
+        except Exception as ex:
+            rep.violation(f"unsupported argument passed positionally: {label}: raised {type(ex).__name__} instead of the library's rejection", {"positional": label, "error": str(ex)[:160]}, key="unsupported_positional_other_error")
+
+
 def validate(rep: Report, events: List[List[Any]], cfg_of: Dict[int, Dict[str, Any]], pid: str) -> None:
     B = 200000
     for i in range(0, len(events), B):
@@ -70,6 +128,7 @@ def run(rep: Report, tier: str) -> None:
         rep.case(("err", json.dumps(c, sort_keys=True, default=str)))
     events += eev
     validate(rep, events, cfg_of, "C01")
+    validate_wrapper(rep)
     rep.extra["events"] = len(events)
     rep.extra["ops_covered"] = sorted({c["op"] for c in cfgs})
     rep.rule = ("configurations: every op of the functional namespace x batch ranks 0-3 x hyperparameters x every constraint name x dtypes (a slice in f32/bf16/f16) + every unsupported "
